@@ -277,7 +277,7 @@ func parseCase(f []string) (*kase, bool) {
 		}
 		c.names = append(c.names, nameInfo{s, fl[0], fl[1], fl[2], fl[3], fl[4], row, hrow})
 	}
-	if c.names[0].s != "" || len(c.names) > 16 {
+	if c.names[0].s != "" || len(c.names) > 160 {
 		return nil, false
 	}
 	seen := map[string]bool{}
